@@ -991,6 +991,13 @@ fn directed(s: &mut Session, thorough: bool) -> u32 {
         // corruption found by validation is dropped everywhere and not served later
         vec![two.to_string(), "put 1 aa".into(), "putl 1 aa 1".into(), "fset 1 1 ab".into(), "put 2 bb".into(), format!("getv 1 {}", ck(&[0xaa])), "get 1".into(), "getl 1 1".into(), "stats".into()],
         vec![two.to_string(), format!("putv 1 {} aa", ck(&[0xaa])), format!("putv 2 {} bb", ck(&[0xaa])), "get 1".into(), "get 2".into(), format!("getv 1 {}", ck(&[0xaa])), format!("getv 1 {}", ck(&[0xbb])), "get 1".into()],
+        // corruption found in the FIRST layer while a slower layer holds the same bad bytes: dropped from both
+        vec![two.to_string(), "putl 1 ab 1".into(), "put 1 ab".into(), format!("getv 1 {}", ck(&[0xaa])), "get 1".into(), "getl 1 1".into(), "getl 1 0".into(), "stats".into()],
+        // a content key that differs from the hash in its last bit only
+        {
+            let mut near = md5_of(&[0xaa]); near[15] ^= 1;
+            vec![two.to_string(), "put 1 aa".into(), format!("getv 1 {}", hex(&near)), "get 1".into(), format!("putv 2 {} aa", hex(&near)), "get 2".into(), format!("putv 2 {} aa", ck(&[0xaa])), format!("getv 2 {}", ck(&[0xaa])), "stats".into()]
+        },
         // a deleted disk file: the layer errors, the scan goes on
         sc(&["begin L=d:long;d:long strat=onhit hooks=none skip=104857600", "put 1 aa", "putl 1 aa 1", "fdel 0 1", "get 1", "getl 1 0", "stats"]),
     ];
